@@ -887,11 +887,13 @@ type c01FP struct {
 	stderr bytes.Buffer
 	cancel context.CancelFunc
 	ctx    context.Context
+	delay  bool
 }
 
-func c01StartFP(w *gitx.World, dir string, env []string) (*c01FP, error) {
+// delay: negotiate capability=delay and send can-delay=1 with every smudge request (what git checkout does since 2.15)
+func c01StartFP(w *gitx.World, dir string, env []string, delay bool) (*c01FP, error) {
 	ctx, cancel := context.WithTimeout(context.Background(), gitx.CmdTimeout)
-	f := &c01FP{cancel: cancel, ctx: ctx}
+	f := &c01FP{cancel: cancel, ctx: ctx, delay: delay}
 	f.cmd = exec.CommandContext(ctx, filepath.Join(w.BinDir, "git-lfs"), "filter-process")
 	f.cmd.Dir = dir
 	f.cmd.Env = w.Env(env...)
@@ -919,20 +921,42 @@ func c01StartFP(w *gitx.World, dir string, env []string) (*c01FP, error) {
 	if err != nil || len(l) != 2 || l[0] != "git-filter-server" || l[1] != "version=2" {
 		return f, fmt.Errorf("handshake: %v %v", l, err)
 	}
-	if err := f.pl.WritePacketList([]string{"capability=clean", "capability=smudge"}); err != nil {
+	caps := []string{"capability=clean", "capability=smudge"}
+	if delay {
+		caps = append(caps, "capability=delay")
+	}
+	if err := f.pl.WritePacketList(caps); err != nil {
 		return f, fmt.Errorf("capabilities write: %v", err)
 	}
 	if l, err = f.pl.ReadPacketList(); err != nil {
 		return f, fmt.Errorf("capabilities: %v %v", l, err)
 	}
+	if delay {
+		ok := false
+		for _, c := range l {
+			if c == "capability=delay" {
+				ok = true
+			}
+		}
+		if !ok {
+			return f, fmt.Errorf("capability=delay not granted: %v", l)
+		}
+	}
 	return f, nil
 }
 
-// Request sends one clean/smudge request with the payload cut into packets of the given sizes (cycled).
+// Request sends one clean/smudge request with the payload cut into packets of the given sizes (cycled) and reads the
+// answer the way git does (sub-process.c / convert.c): packets up to the first flush are the status list, of which only
+// the last "status=" line counts and every other line is ignored; then content packets up to a flush; then the final
+// status list.  `out` is therefore exactly what git would keep.
 func (f *c01FP) Request(command, path string, payload []byte, pk []int) (status string, out []byte, err error) {
 	werr := make(chan error, 1)
 	go func() {
-		if e := f.pl.WritePacketList([]string{"command=" + command, "pathname=" + path}); e != nil {
+		hdr := []string{"command=" + command, "pathname=" + path}
+		if f.delay && command == "smudge" {
+			hdr = append(hdr, "can-delay=1")
+		}
+		if e := f.pl.WritePacketList(hdr); e != nil {
 			werr <- e
 			return
 		}
